@@ -727,7 +727,7 @@ impl Property for C13 {
         "exploration"
     }
     fn rule(&self) -> String {
-        "decider builds a diagram (<=10 spiders Z/X and structurally H-boxes, <=3 inputs and <=3 outputs, bare and Hadamard wires between boundaries, both edge types, phases with denominators up to 256 and a few beyond, unique / colliding / negative / fractional coordinates, scalar sqrt2^p w^k times (1+e^{ia}) factors) in the vector or hash backend, and then every RandomState key of every map created in encode_graph and in each of several independent decode_graph calls (so JSON member order, decoded vertex numbering and edge insertion order are recorded decisions); the file form writes through write_graph/read_graph under no fault, ENOSPC (/dev/full), a torn write at a decider-chosen byte offset (RLIMIT_FSIZE in a child process), missing directory, target is a directory, and (sub-batch file_sys) write_graph resp. read_graph in a child process under the system-call seam (LD_PRELOAD shim: short writes / short reads, EINTR and errno failures EIO/ENOSPC/EDQUOT/EMFILE/... at decider-chosen calls; diagrams above the 8 KiB buffer size in a sixth of the runs). Oracle: anchored isomorphism (inputs/outputs in order, types, phases, edge types, coordinates), exact scalar for sqrt2^p w^k and 1e-9 relative otherwise, tensor equality where evaluable, and decodes under different hash orders isomorphic to each other. Under faults only a reported success with a missing/undecodable/different file is a violation. Non-trivial: >=2 boundaries, >=1 Hadamard edge, >=1 non-zero phase, and a decoded numbering that differs from the original. Distinct by (scenario digest, event digest).".into()
+        "decider builds a diagram (<=10 spiders Z/X and structurally H-boxes, <=3 inputs and <=3 outputs, bare and Hadamard wires between boundaries, both edge types, phases with denominators up to 256 and a few beyond, unique / colliding / negative / fractional coordinates, scalar sqrt2^p w^k times (1+e^{ia}) factors) in the vector or hash backend, and then every RandomState key of every map created in encode_graph and in each of several independent decode_graph calls (so JSON member order, decoded vertex numbering and edge insertion order are recorded decisions); the file form writes through write_graph/read_graph under no fault, ENOSPC (/dev/full), a torn write at a decider-chosen byte offset (RLIMIT_FSIZE in a child process), missing directory, target is a directory, and (sub-batch file_sys) write_graph resp. read_graph in a child process under the system-call seam (LD_PRELOAD shim: short writes / short reads, EINTR and errno failures EIO/ENOSPC/EDQUOT/EMFILE/... at decider-chosen calls; diagrams above the 8 KiB buffer size in a sixth of the runs). Oracle: anchored isomorphism (inputs/outputs in order, types, phases, edge types, coordinates), exact scalar for sqrt2^p w^k and 1e-9 relative otherwise, tensor equality where evaluable, and decodes under different hash orders isomorphic to each other. Sub-batch file_multi: a history of 2..5 write_graph calls into one directory under names that share stems and extensions (g.qgraph, g.tmp, g, g.0, g.1, g.qgraph.tmp, ...; a name may repeat), after which every file must hold the diagram written to it last. ENOSPC targets are symbolic links to /dev/full in the scratch directory (a target the code replaced by a complete file of its own is judged by content). Scalars of the general classes reach 2^+-1000. Under faults only a reported success with a missing/undecodable/different file is a violation. Non-trivial: >=2 boundaries, >=1 Hadamard edge, >=1 non-zero phase, and a decoded numbering that differs from the original. Distinct by (scenario digest, event digest).".into()
     }
     fn assumptions(&self) -> Vec<String> {
         vec![
